@@ -2153,6 +2153,61 @@ def fault_history(rnd):
     return h, k
 
 
+def run_fault_family(chk, rnd, n):
+    """The `fault` family alone, for another property's check (C15: a failing call on a SOLVER object
+    leaves no trace): n histories in which one call fails and the history goes on, run on the real
+    SmtLibSolver against harness/smtref.py in worker processes (each worker waits for / kills its
+    solver process on every path; the pool is torn down on exit), judged by the twin oracle only -
+    no Coq case files.  Violations are reported through `chk` with key prefix `solver-fault:`.
+    Returns {"run", "failing_calls", "with_trace"}."""
+    global SYMS_OF
+    if SYMS_OF is _plain_syms:
+        SYMS_OF = _make_symfun()
+    logdir = lib.mkdir(os.path.join(chk.dir, "solver_fault_logs"))
+    jobs = []
+    for _ in range(n):
+        hf, kf = fault_history(rnd)
+        jobs.append((hf, "fault:%d" % kf))
+    stats = {"run": 0, "failing_calls": 0, "with_trace": 0}
+    try:
+        res, _aborted = run_all(jobs, logdir)
+    finally:
+        for f in os.listdir(logdir):
+            try:
+                os.remove(os.path.join(logdir, f))
+            except OSError:
+                pass
+    todo = []
+    for i, (h, mode) in enumerate(jobs):
+        obs = res.get(i)
+        if obs is None:
+            continue
+        stats["run"] += 1
+        chk.count(("solver-fault", repr(h)))
+        if (obs.get("fault") or {}).get("type"):
+            stats["failing_calls"] += 1
+        if obs.get("fails"):
+            stats["with_trace"] += 1
+            todo.append((i, obs))
+    todo.sort(key=lambda x: (len(jobs[x[0]][0]), x[0]))
+    for i, obs in todo:
+        if hasattr(chk, "enough") and chk.enough():
+            break
+        h, mode = jobs[i]
+        k = int(mode.split(":")[1])
+        fails = obs["fails"]
+        key = "solver-fault:%s:%s" % (h[k][0], "+".join(sorted(set(f["kind"] for f in fails))))
+        chk.violation({"kind": "history", "history": [list(c) for c in h], "mode": mode,
+                       "what": "a failing call on a SmtLibSolver object left a trace: a later call differs from the twin that never made it",
+                       "shown": "%s   [call %d is expected to FAIL; the later calls must behave as if it had not been made]" % (show_history(h), k),
+                       "failing_call": obs.get("fault"), "repro": repro_snippet(h), "failures": fails,
+                       "observed": {"exception": obs["exc"], "results": obs["results"], "commands": [(e["cmd"], e["reply"]) for e in obs["log"]]},
+                       "expected": "every call after the failing one returns what it returns on a solver that never made the failing call (verdicts by brute force, no exception, legal stream)",
+                       "oracle": "strict reference solver harness/smtref.py + harness brute force (harness/c17.py fault family)",
+                       "replay_with": "./check C17 --replay <this file>"}, key=key)
+    return stats
+
+
 def shortcut_oracle(h, obs):
     name, f = h[0]
     fails = []
